@@ -101,6 +101,9 @@ func c11(c *Ctx) {
 	// lengths announced = bytes emitted after them (linear engine)
 	lk := layout.New(c.P)
 	lk.A2(r, packetPairs(c)[:2])
+	// "re-emitting a parsed packet through the muxer reproduces the original bytes": nothing of an earlier call is emitted in
+	// front of the packet (B1)
+	muxerBuffersStartEmpty(c)
 	r.Floor("A3", "structure fields compared", countPrefix(r, "A3/", "/field/"), 30)
 }
 
